@@ -12,6 +12,10 @@ def replay(w):
         import check_build
 
         return check_build.replay_witness(w)
+    if kind == "conc":
+        import check_conc
+
+        return check_conc.replay_conc(w)
     if kind == "respell":
         import corr_b
 
